@@ -8,6 +8,7 @@ import (
 )
 
 func init() {
+	zzRegister("zzH_C05_growths", zzH_C05_growths)
 	zzRegister("zzH_C04_api", zzH_C04_api)
 	zzRegister("zzH_C04_longfrag", zzH_C04_longfrag)
 	zzRegister("zzH_C05_api", zzH_C05_api)
@@ -170,6 +171,18 @@ func zzH_C04_api() {
 		zzHavocFreed()
 		zzAssert(!zzIsFreed(held), "a handed-out slice was recycled before Release")
 		zzAssertEqBytes(held, data[heldAt:heldAt+len(held)], "a handed-out slice changed before Release")
+	}
+	// epilogue: whatever happened before, the next bytes delivered are the next bytes of the stream,
+	// and if the stream still has k bytes and the source never failed early, they must be delivered
+	k := zzInt("epilogue", 1, 8)
+	out, err := r.Next(k)
+	if err == nil {
+		zzAssert(P+k <= S, "epilogue: bytes beyond the end of the stream")
+		if P+k <= S && len(out) == k {
+			zzAssertEqBytes(out, data[P:P+k], "epilogue: bytes lost, duplicated or reordered")
+		}
+	} else if P+k <= S && (bytesBacked || src.failAt >= P+k) {
+		zzFail("epilogue: stream bytes were lost (reader fails although the source can still deliver them)")
 	}
 	zzReach("ops-done")
 }
@@ -373,6 +386,7 @@ func zzH_C05_bytes() {
 	initial := append([]byte(nil), target...)
 	w := NewBytesWriter(&target)
 	var written []byte
+	var lazyBuf, lazyFill [][]byte
 	nops := zzParam("OPS")
 	for i := 0; i < nops; i++ {
 		isMalloc := opbits%2 == 1
@@ -385,7 +399,11 @@ func zzH_C05_bytes() {
 				return
 			}
 			fill := zzBytes("fill", n)
-			copy(buf, fill)
+			if zzBool("lazyFill") {
+				lazyBuf, lazyFill = append(lazyBuf, buf), append(lazyFill, fill)
+			} else {
+				copy(buf, fill)
+			}
 			written = append(written, fill...)
 		} else {
 			n := zzInt("wn", 0, zzParam("NMAX"))
@@ -396,11 +414,58 @@ func zzH_C05_bytes() {
 		}
 		zzAssert(w.WrittenLen() == len(initial)+len(written), "WrittenLen differs from initial length plus written bytes")
 	}
+	for i := range lazyBuf {
+		copy(lazyBuf[i], lazyFill[i]) // regions may be filled any time before Flush
+	}
 	zzAssert(w.Flush() == nil, "Flush failed")
 	zzAssert(len(target) == len(initial)+len(written), "target length differs from initial + written")
 	if len(target) == len(initial)+len(written) {
 		zzAssertEqBytes(target[:len(initial)], initial, "target no longer starts with the initial contents")
 		zzAssertEqBytes(target[len(initial):], written, "target does not end with the written bytes")
+	}
+	zzReach("flushed")
+}
+
+var zzGrowSizes = [4]int{1000, 4000, 9000, 30000}
+
+// zzH_C05_growths: many regions of concrete sizes within one flush window (0..4 buffer growths),
+// filled lazily in reverse order; both the pool-backed and the bytes-backed writer.
+func zzH_C05_growths() {
+	n := zzParam("REGIONS")
+	sink := &zzSink{}
+	var target []byte
+	var w Writer
+	bytesBacked := zzParam("unit")%2 == 1
+	if bytesBacked {
+		w = NewBytesWriter(&target)
+	} else {
+		w = NewDefaultWriter(sink)
+	}
+	var regions, fills [][]byte
+	var want []byte
+	first := zzGrowSizes[(zzParam("unit")/2)%4]
+	for i := 0; i < n; i++ {
+		sz := first
+		if i > 0 {
+			sz = zzGrowSizes[zzPick("size", 0, 3)]
+		}
+		buf, err := w.Malloc(sz)
+		zzAssert(zzAnd(err == nil, len(buf) == sz), "Malloc failed")
+		if err != nil || len(buf) != sz {
+			return
+		}
+		f := zzBytes("fill", sz)
+		regions, fills = append(regions, buf), append(fills, f)
+		want = append(want, f...)
+	}
+	for i := n - 1; i >= 0; i-- {
+		copy(regions[i], fills[i])
+	}
+	zzAssert(w.Flush() == nil, "Flush failed")
+	if bytesBacked {
+		zzAssertEqBytes(target, want, "bytes-backed writer: target differs from the regions' contents")
+	} else {
+		zzAssertEqBytes(sink.got, want, "flushed bytes differ from the regions' contents")
 	}
 	zzReach("flushed")
 }
